@@ -13,6 +13,8 @@ from .c04 import PREC
 from .c05 import t
 
 ALLOWED = set(string.ascii_letters + string.digits + '_')
+PUBLIC = {}       # (package, test name) -> the module-level function object
+COVERAGE = {}     # (table id, stream, test) -> rows some context evaluates
 
 
 def cf_safe_spec(name):
@@ -203,11 +205,17 @@ def run(ck):
     conc = {'temp': [1, 5, 30, 3, 9], '9 lives-x': [2, 2, 2, 2, 50], 'sal.t': [0, 1, 2, 3, 4], 'lat': [1, 2, 3, 4, 5], 'lon': [6, 7, 8, 9, 10]}
     table = Table(5, streams=streams, concrete=conc)
     contexts = [dict(window=(t(0), t(3)), tests={'temp': ['gross', 'spike'], '9 lives-x': ['gross', 'flat'], 'sal.t': ['valid']}),
-                dict(window=(t(3), t(5)), tests={'temp': ['gross'], '9 lives-x': ['flat']})]
+                dict(window=(t(3), t(4)), tests={'temp': ['gross'], '9 lives-x': ['flat']})]
     src = make_config_source(contexts)
+    from ..streams_h import test_menu
+    menu = test_menu()
     stores = it.module('ioos_qc.stores')
     PS = stores.globals['PandasStore']
     qartod = it.module('ioos_qc.qartod').globals
+    for pkg in ('qartod', 'axds', 'argo'):
+        for nm, obj in it.module(f'ioos_qc.{pkg}').globals.items():
+            if nm.endswith('_test') or nm == 'aggregate':
+                PUBLIC[(pkg, nm)] = obj
     filters = [None, ['temp'], ['gross_range_test'], [qartod['spike_test']], ['9 lives-x', 'valid_range_test'], ['nothing-matches'], []]
     # a platform at the surface / equator / prime meridian: axis (and data) values that are all exactly zero are still values
     zconc = dict(conc, z=[0] * 5, lat=[0] * 5, lon=[0] * 5, temp=[0] * 5)
@@ -217,6 +225,10 @@ def run(ck):
         if run0.error is not None:
             ck.violate('C19.save', f'{fe}:stream-raises', f'{fe}: the stream raises {run0.error.exc}')
             continue
+        for c in contexts:
+            for sid, keys in c['tests'].items():
+                for k in keys:
+                    COVERAGE.setdefault((id(table), sid, menu[k][1]), set()).update(table.rows_in(c['window']))
         for wd, wa, inc, exc, agg in itertools.product((False, True), (True, False), filters, filters, (False, True)):
             if inc is not None and exc is not None and ck.tier != 'thorough' and (inc != ['temp'] or exc != ['gross_range_test']):
                 continue
@@ -254,9 +266,10 @@ def show_filter(f):
 
 
 def passes(cr, inc, exc):
-    fn, sid, test = cr.attrs['function'], cr.attrs['stream_id'], cr.attrs['test']
+    sid, test, pkg = cr.attrs['stream_id'], cr.attrs['test'], cr.attrs['package']
     def member(lst):
-        return any((x is fn) or (isinstance(x, str) and x in (sid, test)) for x in lst)
+        # a function in a filter list is the public object ioos_qc.<package>.<test> (what a user can name), not whatever the result carries
+        return any((isinstance(x, str) and x in (sid, test)) or (not isinstance(x, str) and x is PUBLIC.get((pkg, test))) for x in lst)
     if inc is not None and not member(inc):
         return False
     if exc is not None and member(exc):
@@ -310,6 +323,12 @@ def check_frame(ck, label, df, ps, table, wd, wa, inc, exc, agg):
         else:
             want = concrete_flags(ref.attrs['results'])
             okv = vals == want
+            # rows that no context evaluated for this test are empty in the frame (not a flag)
+            cov = COVERAGE.get((id(table), ref.attrs['stream_id'], ref.attrs['test']))
+            if cov is not None:
+                stray = [i for i, v in enumerate(vals) if i not in cov and v is not None]
+                ck.ob('C19.values', f'{label} {nm!r} rows outside every window', not stray, key='PandasStore.save:flag-on-a-row-no-context-evaluated',
+                      what=f'{label}: column {nm!r} holds {vals}; rows {stray} are outside every window configured for that test and must be empty')
         ck.ob('C19.values', f'{label} {nm!r}', okv, key=f'PandasStore.save:{kind}-column-values',
               what=f'{label}: column {nm!r} holds {vals}, expected {want}')
         ck.ob('C19.rows', f'{label} {nm!r}', len(vals) == table.n, key='PandasStore.save:row-count', what=f'{label}: column {nm!r} has {len(vals)} rows for {table.n} input rows')
